@@ -262,6 +262,7 @@ func (x *Exec) loopInvs(fr *Frame, ord int) []*Clause {
 // modified cells and heap effects of a loop body
 func (x *Exec) loopEffects(fr *Frame, h *ssa.BasicBlock) (allocs map[*ssa.Alloc]bool, heap bool, calls bool) {
 	allocs = map[*ssa.Alloc]bool{}
+	x.loopMaps = nil
 	for b := range fr.loops.body[h] {
 		for _, in := range b.Instrs {
 			switch in := in.(type) {
@@ -280,12 +281,21 @@ func (x *Exec) loopEffects(fr *Frame, h *ssa.BasicBlock) (allocs map[*ssa.Alloc]
 					heap = true
 				}
 			case *ssa.MapUpdate:
-				heap = true
+				// only the contents of maps of this type change
+				if mt, ok := in.Map.Type().Underlying().(*types.Map); ok {
+					x.loopMaps = append(x.loopMaps, mt)
+				} else {
+					heap = true
+				}
 			case *ssa.Call:
 				if bi, ok := in.Call.Value.(*ssa.Builtin); ok {
 					switch bi.Name() {
 					case "delete", "copy", "clear":
-						heap = true
+						if mt, ok := in.Call.Args[0].Type().Underlying().(*types.Map); ok && bi.Name() == "delete" {
+							x.loopMaps = append(x.loopMaps, mt)
+						} else {
+							heap = true
+						}
 						if bi.Name() == "copy" {
 							if a, ok := rootAddr(loadSource(in.Call.Args[0])).(*ssa.Alloc); ok {
 								allocs[a] = true
@@ -407,6 +417,19 @@ func (x *Exec) loopEntry(fr *Frame, st *State, h *ssa.BasicBlock, ord int) bool 
 				}
 			}
 		}
+	}
+	if !calls && !heap {
+		for _, mt := range x.loopMaps {
+			hk, hs, vk, vs := x.mapComps(mt)
+			x.heapGet(st, hk, hs)
+			x.heapGet(st, vk, vs)
+			st.heap[hk] = x.d.Fresh("loop_"+hk, hs)
+			st.heap[vk] = x.d.Fresh("loop_"+vk, vs)
+			x.closedFact(st, hk, st.heap[hk])
+			x.closedFact(st, vk, st.heap[vk])
+		}
+	} else if len(x.loopMaps) > 0 {
+		heap = true
 	}
 	if calls {
 		if _, ok := st.ghost["ycnt"]; ok || st.seqOn {
